@@ -145,6 +145,30 @@ Theorem C11_wrapped_status_error : forall i e n,
 Proof. exact wrapped_status. Qed.
 Print Assumptions C11_wrapped_status_error.
 
+(* whether the error (or something it wraps) is a timeout plays no role; under the stock
+   translator (DefaultToHTTPError = 500 for every error) an error without a status of its own
+   is answered with 500 *)
+Theorem C11_timeout_irrelevant : forall b i, handler (with_timeout b i) = handler i.
+Proof. exact timeout_irrelevant. Qed.
+Print Assumptions C11_timeout_irrelevant.
+
+Theorem C11_stock_translator_500 : forall i e,
+  i_resp i = None -> i_err i = Some e -> e_status e = None -> i_errf i = stock_translator e ->
+  exists o, handler i = Reply o /\ o_status o = 500%Z.
+Proof. exact stock_translator_500. Qed.
+Print Assumptions C11_stock_translator_500.
+
+(* hide_version_header replaces the identification value by a constant, it never empties it:
+   with the process value version_value build hide every reply starts X-Krakend with it, and it
+   is not the empty string (gin's c.Header would drop an empty header) *)
+Theorem C11_hidden_version_still_identifies : forall build hide i o,
+  build <> "" -> i_ver i = version_value build hide -> handler i = Reply o ->
+  version_value build hide <> "" /\ exists rest, o_version o = version_value build hide :: rest.
+Proof.
+  intros build hide i o Hb Hv H. split; [exact (version_value_nonempty build hide Hb)|exact (version_shown build hide i o Hv H)].
+Qed.
+Print Assumptions C11_hidden_version_still_identifies.
+
 (* the independently written implementations send the same two headers *)
 Theorem C11_impls_agree : forall i im1 im2 o1 o2,
   meta_disjoint i ->
@@ -252,32 +276,32 @@ Example C11_ex_max_age :
   = ["public, max-age=0"; "public, max-age=1"; "public, max-age=0"; "public, max-age=-1"; "public, max-age=86400"].
 Proof. vm_compute. reflexivity. Qed.
 Example C11_ex_error_status : forall im,
-  exists o, handler (ex_input im None (Some {| e_status := Some 418%Z; e_multi := false; e_msg := "tea"; e_buried := None |}) 0) = Reply o
+  exists o, handler (ex_input im None (Some {| e_status := Some 418%Z; e_multi := false; e_msg := "tea"; e_buried := None; e_timeout := false |}) 0) = Reply o
             /\ o_status o = 418%Z /\ o_completed o = ["false"].
 Proof. destruct im; eexists; vm_compute; repeat split; reflexivity. Qed.
 Example C11_ex_error_500 : forall im,
-  exists o, handler (ex_input im None (Some {| e_status := None; e_multi := true; e_msg := "a"; e_buried := None |}) 0) = Reply o
+  exists o, handler (ex_input im None (Some {| e_status := None; e_multi := true; e_msg := "a"; e_buried := None; e_timeout := false |}) 0) = Reply o
             /\ o_status o = 500%Z.
 Proof. destruct im; eexists; vm_compute; repeat split; reflexivity. Qed.
 (* latitude of the statement: empty response with an error - gin renders it, mux answers with the error *)
 Example C11_ex_empty_with_error :
-  let e := Some {| e_status := Some 404%Z; e_multi := false; e_msg := "nf"; e_buried := None |} in
+  let e := Some {| e_status := Some 404%Z; e_multi := false; e_msg := "nf"; e_buried := None; e_timeout := false |} in
   let r := Some {| r_data := Some []; r_complete := true; r_meta := []; r_status := 0; r_io := None |} in
   (exists o, handler (ex_input Gin r e 0) = Reply o /\ o_status o = 200%Z /\ o_body o = BJson (JObj [])) /\
   (exists o, handler (ex_input Mux r e 0) = Reply o /\ o_status o = 404%Z /\ o_body o = BRaw ("nf" ++ nl)).
 Proof. split; eexists; vm_compute; repeat split; reflexivity. Qed.
 (* the panic branch is reachable, and only with an invalid status *)
 Example C11_ex_panic :
-  handler (ex_input Mux None (Some {| e_status := Some 0%Z; e_multi := false; e_msg := ""; e_buried := None |}) 0) = Panic /\
-  exists o, handler (ex_input Gin None (Some {| e_status := Some 0%Z; e_multi := false; e_msg := ""; e_buried := None |}) 0) = Reply o
+  handler (ex_input Mux None (Some {| e_status := Some 0%Z; e_multi := false; e_msg := ""; e_buried := None; e_timeout := false |}) 0) = Panic /\
+  exists o, handler (ex_input Gin None (Some {| e_status := Some 0%Z; e_multi := false; e_msg := ""; e_buried := None; e_timeout := false |}) 0) = Reply o
             /\ o_status o = 200%Z.
 Proof. split; [|eexists]; vm_compute; repeat split; reflexivity. Qed.
 Example C11_ex_ctx_errs :
-  let e := Some {| e_status := Some 418%Z; e_multi := false; e_msg := "tea"; e_buried := None |} in
+  let e := Some {| e_status := Some 418%Z; e_multi := false; e_msg := "tea"; e_buried := None; e_timeout := false |} in
   exists o, handler (with_ctx_errs [CEPlain; CEStatus 503; CEMeta] (ex_input Gin None e 0)) = Reply o /\ o_status o = 418%Z.
 Proof. eexists; vm_compute; split; reflexivity. Qed.
 Example C11_ex_wrapped : forall im,
-  exists o, handler (ex_input im None (Some {| e_status := None; e_multi := false; e_msg := "w: no content"; e_buried := Some 204%Z |}) 0) = Reply o
+  exists o, handler (ex_input im None (Some {| e_status := None; e_multi := false; e_msg := "w: no content"; e_buried := Some 204%Z; e_timeout := false |}) 0) = Reply o
             /\ o_status o = 500%Z.
 Proof. destruct im; eexists; vm_compute; split; reflexivity. Qed.
 Example C11_ex_negotiate :
@@ -288,9 +312,16 @@ Example C11_ex_negotiate :
   render_of_config MuxEngine "bogus" ["no-op"] AcNone = RNoop.
 Proof. vm_compute. repeat split; reflexivity. Qed.
 Example C11_ex_panics :
-  panics (ex_input Mux None (Some {| e_status := Some 1000%Z; e_multi := false; e_msg := ""; e_buried := None |}) 0) = true /\
-  panics (ex_input Gin None (Some {| e_status := Some 0%Z; e_multi := false; e_msg := ""; e_buried := None |}) 0) = false.
+  panics (ex_input Mux None (Some {| e_status := Some 1000%Z; e_multi := false; e_msg := ""; e_buried := None; e_timeout := false |}) 0) = true /\
+  panics (ex_input Gin None (Some {| e_status := Some 0%Z; e_multi := false; e_msg := ""; e_buried := None; e_timeout := false |}) 0) = false.
 Proof. vm_compute. split; reflexivity. Qed.
+Example C11_ex_timeout_500 : forall im,
+  exists o, handler (ex_input im None (Some {| e_status := None; e_multi := false; e_msg := "context deadline exceeded"; e_buried := None; e_timeout := true |}) 0) = Reply o
+            /\ o_status o = 500%Z.
+Proof. destruct im; eexists; vm_compute; split; reflexivity. Qed.
+Example C11_ex_version_value :
+  version_value "Version 2.7.0" true = "Version undefined" /\ version_value "Version 2.7.0" false = "Version 2.7.0".
+Proof. split; reflexivity. Qed.
 (* the recorded finding has inputs, and they are recognised *)
 Example C11_ex_in_finding : forall im, in_finding (spoof_input im "x-krakend-completed" "true") = true.
 Proof. destruct im; vm_compute; reflexivity. Qed.
